@@ -7,12 +7,62 @@ BASE = "cd /repo && /venv/bin/python -m pytest -ra -q -p no:cacheprovider --time
 SEQ_NOTE = ("Trusted: the reference model in checks/<id>.py (plain list/dict/set code), the canonical state key "
             "(all attributes of the object graph, identities numbered by first visit), CPython. Bounds (alphabet, "
             "capacity, depth) are stated in the evidence; nothing beyond them is claimed.")
+A_NOTE = ("Trusted: the virtual threading/multiprocessing layer mc/vmp.py (textbook semantics, compared with the real primitives by "
+          "conformance/primitives.py), synchronous queue hand-off, fork-like process start, no pickling; the scheduler and the "
+          "happens-before state cache (mc/vsched.py; equal fingerprints = same Mazurkiewicz trace prefix). The real source file of "
+          "/repo is executed unmodified. Bounds per driver (preemptions, environment deviations, caps) are in the evidence.")
+A_TECH = "stateless model checking of the real source under a controlled scheduler: all schedules up to a preemption bound (unbounded for the small drivers), happens-before state cache"
 CHECKS = {
+ "C01": dict(engine="vsched", technique=A_TECH, ref="5/C01", note=A_NOTE,
+             text="Every schedule (consumer, SendWorkThread, ReplaceWorkerThread, workers as forked copies) of 8 sharp drivers over the real own_proc_pools.py: "
+                  "1-worker driver with unbounded preemptions, the others with <=1-2 (quick) / <=2-3 (thorough) preemptions, thorough adds the W x queue-bounds x n x chunk "
+                  "x lazy/list x mode grid at <=2. Oracle per execution: values yielded per call == map(f, data) (order, multiplicity, chunk order for unordered), no "
+                  "result chunk left in any queue, no thread died. Unsynchronised attributes are found by a vector-clock race detector and become scheduling points."),
+ "C02": dict(engine="vsched", technique=A_TECH, ref="5/C02", note=A_NOTE,
+             text="Same exploration, oracle = no deadlock / livelock: a state with no enabled thread while some thread is unfinished (or >5000 steps) is reported with who is "
+                  "blocked where. Lazy inputs make every __next__ (items and the final StopIteration) a free yield point, so arbitrarily late exhaustion is in the 0-preemption "
+                  "space; bounded results queues exercise run_event flow control; includes leaving the pool context (__exit__)."),
+ "C03": dict(engine="vsched", technique=A_TECH, ref="5/C03", note=A_NOTE,
+             text="Call histories of length 2-3 (imap / imap_unordered, empty calls in between, chunk sizes) on one FunctorPool and quota'd FactoryFunctorPool instances (quota 1-2, "
+                  "1-2 workers) under all schedules within the bound; per-call output must equal the fresh-pool expectation, nothing leaks between calls, no starvation "
+                  "(consumer blocked, all workers and the replace thread finished)."),
+ "C04": dict(engine="vsched", technique=A_TECH, ref="5/C04", note=A_NOTE,
+             text="Same executions plus fault runs (begin() raises in worker w; functor raises at item j): per-worker event log must match begin, begin-returned, item*, end exactly once each "
+                  "in that order (also on faults), chunks per worker <= quota, until_all_ready() returns happens-after every begin (vector clocks), nothing left running after __exit__."),
  "C08": dict(engine="seqmc", technique="explicit-state exploration of the real object vs reference model (whole reachable graph, bounded size)",
              text="Every mutator applied in every reachable state (list size <= 5 quick / 7 thorough) of the real DoublyLinkedList in three payload modes "
                   "(distinct, all equal, uncomparable), each followed by a full forward/backward link walk, len() and iteration against a list of node "
                   "identities; plus a recursion probe on a 64-element run of equal payloads. Exhaustive over that space; payload renaming is the only symmetry used.",
              ref="5/C08", note=SEQ_NOTE),
+ "C09": dict(engine="seqmc", technique="explicit-state exploration of the real object vs builtin set/dict (all initialisers up to a length, whole reachable graph)",
+             text="All initialisers over a 6-value mixed int/float alphabet (len <=2 quick / <=4 thorough; list, iterator, dict, pairs) and from each the whole reachable graph under the "
+                  "full MutableSet / MutableMapping menu incl. set operators; after every step strict ascent, content, len, membership and lookup vs builtin set/dict; foreign-typed probes must "
+                  "answer absent and leave the canonical state unchanged.", ref="5/C09", note=SEQ_NOTE),
+ "C10": dict(engine="seqmc", technique="exhaustive input enumeration over a small span universe vs brute-force membership formulas",
+             text="Every span list (3-point universe len<=3 quick; 4-point and longer thorough) through all constructor forms, every ordered pair of constructed contents x all 4x4 relation "
+                  "pairs x 13 operators against the docstring definitions evaluated by brute force with harness-side relations.", ref="5/C10", note=SEQ_NOTE),
+ "C12": dict(engine="seqmc", technique="explicit-state exploration of edit histories on the real file objects vs a Python list (depth-bounded, state dedup)",
+             text="All edit sequences (10 mutators, all indices in [-n-1,n], 3 strings) to depth 2-3 quick / 3-4 thorough from 66 source files x 4 variants; after every step observation, len, "
+                  "items, slices, dirty flag and source bytes vs a list model; in every distinct state save() with 5 line endings (bytes) and reopen.", ref="5/C12", note=SEQ_NOTE),
+ "C13": dict(engine="seqmc", technique="exhaustive input enumeration (field values over small alphabets) + explicit-state exploration of record-file edit histories",
+             text="All records of 39 field-type sequences x JSON/CSV/TSV over critical-character strings (len<=2 quick / <=4 thorough), ints, floats, JSON nestings: load(save(r))==r, one line, "
+                  "read back through 4 file variants; all save-call histories of length <=3 vs a fresh module; mutable record file edit histories saved and reopened.", ref="5/C13", note=SEQ_NOTE),
+ "C15": dict(engine="seqmc", technique="exhaustive enumeration of arrival permutations x drain subsets and of put/clear histories vs reference",
+             text="Buffer/PrintBuffer: every permutation of n<=5 (quick) / 7 serials x every subset of drain points, flush/clear histories; CircularBuffer capacities 1-4, every put/clear "
+                  "sequence to depth 8/10 with all index probes.", ref="5/C15", note=SEQ_NOTE),
+ "C16": dict(engine="seqmc", technique="exhaustive input enumeration (interval sets on a grid, all insertion orders, all probes) vs linear scan",
+             text="Every ordered sequence of <=3 (quick) / <=4 intervals on an integer and a halved grid incl. degenerate and inverted ones; construction must raise KeyError exactly when "
+                  "invalid/overlapping; every probe on the half-step grid vs linear scan; in, len, ascending iteration.", ref="5/C16", note=SEQ_NOTE),
+ "C17": dict(engine="seqmc", technique="exhaustive input enumeration (score vectors, keys, intervals) vs itertools brute force",
+             text="All score vectors in {0..3}^n (n<=4 quick / more thorough) x 4 monotone keys x yield_key: output is a permutation of all index-ordered combinations in non-decreasing key order; "
+                  "every interval [i_start,i_end) vs brute-force minimum.", ref="5/C17", note=SEQ_NOTE),
+ "C19": dict(engine="seqmc", technique="exhaustive input enumeration (complete domain 1..3999; all sequences up to a length) vs independent references",
+             text="Roman numerals over the complete domain; arg_sort, sub_seq, search_sub_seq, compare_pos_in_iterables over all sequences of a small alphabet up to a length; Batcher/BatcherIter "
+                  "for all (n<=9, batch<=10) and shapes.", ref="5/C19", note=SEQ_NOTE),
+ "C20": dict(engine="seqmc", technique="exhaustive enumeration of create/remove/flush/raise histories on the real TmpPool (incl. real manager and forked children) and FilePool",
+             text="All histories to depth 5 (quick) / 8 for the single-process pool with 4 ways of leaving the context; multi_proc with a real Manager and forked children: all op->actor assignments "
+                  "to depth 3/4; FilePool: all file subsets x modes x body op sequences x exits, handle and fd-count oracle.", ref="5/C20",
+             note=SEQ_NOTE + " Real multiprocessing.Manager and fork for the multi_proc part (histories, not schedules)."),
 }
 PENDING = {}
 
